@@ -1,5 +1,6 @@
 import HLV.Model.Check
 import HLV.Model.CheckOwn
+import HLV.Model.Par
 open HLV
 
 /-- `model`: case lines on stdin → model transcripts.
@@ -34,9 +35,32 @@ partial def dropsLoop (h : IO.FS.Stream) : IO Unit := do
   | some why => IO.println s!"fail {why}"
   dropsLoop h
 
+/-- `t2`: T2 case lines (with schedule) → model transcripts -/
+partial def t2Loop (h : IO.FS.Stream) : IO Unit := do
+  let line ← h.getLine
+  if line.isEmpty then return ()
+  let l := line.trimAscii.toString
+  if l.isEmpty then t2Loop h else
+  match parseT2 l with
+  | some c => IO.println c.run
+  | none => IO.println ("?;parse-error;" ++ l)
+  t2Loop h
+
+/-- `t2check <Cxx>`: alternating (T2 case, transcript of the real code) lines → `ok` / `fail <why>` -/
+partial def t2CheckLoop (prop : String) (h : IO.FS.Stream) : IO Unit := do
+  let cl ← h.getLine
+  if cl.isEmpty then return ()
+  let line ← h.getLine
+  match checkT2 prop cl.trimAscii.toString line.trimAscii.toString with
+  | none => IO.println "ok"
+  | some why => IO.println s!"fail {why}"
+  t2CheckLoop prop h
+
 def main (args : List String) : IO Unit := do
   let stdin ← IO.getStdin
   match args with
   | ["drops"] => dropsLoop stdin
+  | ["t2"] => t2Loop stdin
+  | ["t2check", prop] => t2CheckLoop prop stdin
   | ["check", prop] => checkLoop prop stdin
   | _ => modelLoop stdin
